@@ -780,12 +780,16 @@ def adapt_conv_case(rep, which):
 
     cls = {'poly': ad.AdaptivityPolynomialError, 'extra': ad.AdaptivityExtrapolationWithinQ, 'coll': ad.AdaptivityCollocation}[which]
     dt, e_est, e_tol, beta, res_, restol, last, factor, rmax = z3.Reals('dt e_est e_tol beta res restol res_last factor res_max_tol')
+    letol, incr = z3.Reals('level_e_tol increment')
     mx = z3.Int('mx')
-    pre = [dt > 0, e_est > 0, e_tol > 0, beta > 0, beta < 1, res_ >= 0, restol > 0, last >= 0, factor > 1, rmax > restol, mx >= 1, mx <= 3]
+    pre = [dt > 0, e_est > 0, e_tol > 0, beta > 0, beta < 1, res_ >= 0, restol > 0, last >= 0, factor > 1, rmax > restol, mx >= 1, mx <= 3, letol > 0, incr > 0]
     for order in (1, 2, 3):
         for it_ in (1, 2):
-            for ram in (True, False):
-                name = f'adapt_conv/{which}/order{order}/it{it_}/restart_at_maxiter{int(ram)}'
+            # inc: the level also stops by increment (level parameter e_tol + status variable increment), so a step may count as converged while its residual is above restol
+            for ram, inc in ((True, False), (False, False), (True, True), (False, True)):
+                if inc and order > 2:
+                    continue
+                name = f'adapt_conv/{which}/order{order}/it{it_}/restart_at_maxiter{int(ram)}' + ('/increment' if inc else '')
 
                 def fn(c):
                     for a in pre:
@@ -800,7 +804,8 @@ def adapt_conv_case(rep, which):
                             conv_coll = bool(SymBool(z3.Bool('all_collocation_problems_done')))
                             A_.status = SimpleNamespace(order=[order - 1 + 2, order - 1] if conv_coll else [order - 1], error=[(0, 0.0), (1, SymReal(e_est))] if conv_coll else [(0, 0.0)])
                         L = SimpleNamespace(status=_NS(dt_new=None, residual=SymReal(res_), sweep=1, error_embedded_estimate=SymReal(e_est), error_extrapolation_estimate=SymReal(e_est),
-                                                       order_embedded_estimate=order), params=_NS(dt=SymReal(dt), restol=SymReal(restol)),
+                                                       order_embedded_estimate=order, **({'increment': SymReal(incr)} if inc else {})),
+                                            params=_NS(dt=SymReal(dt), restol=SymReal(restol), **({'e_tol': SymReal(letol)} if inc else {})),
                                             sweep=SimpleNamespace(coll=SimpleNamespace(num_nodes=order)))
                         St = SimpleNamespace(levels=[L], status=SimpleNamespace(iter=it_, restart=False, slot=0, force_continue=False, force_done=False, time_size=1),
                                              params=SimpleNamespace(maxiter=SymInt(mx)), time=0.0)
@@ -826,8 +831,9 @@ def adapt_conv_case(rep, which):
                         rep.ob(f'{name}/path{i}:{cl}', res)
                         if res == 'sat':
                             rep.replayed += 1
-                            vals = {str(v): float(model_value(m, v)) for v in (dt, e_est, e_tol, beta, res_, restol, last, factor, rmax)}
+                            vals = {str(v): float(model_value(m, v)) for v in (dt, e_est, e_tol, beta, res_, restol, last, factor, rmax, letol, incr)}
                             vals['mx'] = int(model_value(m, mx))
+                            vals['inc'] = bool(inc)
                             bad = adapt_conv_concrete(which, order, it_, ram, vals, p.decisions)
                             if cl in bad:
                                 rep.violation(f'{PID}/{cls.__name__}/{cl}', f'{name}/path{i}: {cl} refuted on the real class for {vals}: {bad[cl]}',
@@ -852,7 +858,8 @@ def adapt_conv_concrete(which, order, it_, ram, vals, decisions=()):
         conv_coll = bool(decisions[0]) if decisions else True
         A_.status = SimpleNamespace(order=[order - 1 + 2, order - 1] if conv_coll else [order - 1], error=[(0, 0.0), (1, vals['e_est'])] if conv_coll else [(0, 0.0)])
     L = SimpleNamespace(status=_NS(dt_new=None, residual=vals['res'], sweep=1, error_embedded_estimate=vals['e_est'], error_extrapolation_estimate=vals['e_est'],
-                                   order_embedded_estimate=order), params=_NS(dt=vals['dt'], restol=vals['restol']), sweep=SimpleNamespace(coll=SimpleNamespace(num_nodes=order)))
+                                   order_embedded_estimate=order, **({'increment': vals['increment']} if vals.get('inc') else {})),
+                        params=_NS(dt=vals['dt'], restol=vals['restol'], **({'e_tol': vals['level_e_tol']} if vals.get('inc') else {})), sweep=SimpleNamespace(coll=SimpleNamespace(num_nodes=order)))
     St = SimpleNamespace(levels=[L], status=SimpleNamespace(iter=it_, restart=False, slot=0, force_continue=False, force_done=False, time_size=1),
                          params=SimpleNamespace(maxiter=vals['mx']), time=0.0)
     conv = bool(A_.get_convergence(None, St))
